@@ -1,1 +1,1585 @@
-//! Property-specific engine extensions for C11 (owned by the C11 check).
+//! Engine of the C11 check ("on-chain conclusions depend only on the chain, not on how it was delivered").
+//!
+//! One *scenario* (world, traffic prefix leaving pending HTLCs, optional force close, chain script with
+//! forks) is executed several times ("replicas"; deterministic re-executions of the whole scenario).
+//! Replica 0 builds the block tree: it sees every block of the script through the plainest `Listen`
+//! delivery, its nodes' broadcasts feed the consensus simulator and the script picks what is mined. The
+//! resulting *trace* (connect block / disconnect n / off-chain claim) is then replayed in the other
+//! replicas with the identical blocks; only the node under observation ("O") is told about the chain
+//! differently, by a small chain client written from the `chain::Listen` / `chain::Confirm` doc comments:
+//!
+//! * `Listen`: every block connected in chain order with one `block_connected` /
+//!   `filtered_block_connected` call; a second `filtered_block_connected` for the same block right away when
+//!   the `Filter` registrations made while processing it match further transactions of the block; a reorg is
+//!   announced by `blocks_disconnected(fork point)`, once or several times walking backwards.
+//! * `Confirm`: `transactions_confirmed` in chain order (block by block, topological inside a block,
+//!   possibly split over several calls, possibly repeated), before or after the `best_block_updated` of the
+//!   block; `best_block_updated` may be skipped for intermediary blocks; on a reorg every transaction of
+//!   `get_relevant_txids()` whose block left the chain is given to `transaction_unconfirmed` en bloc before
+//!   any re-confirmation, and no transaction is confirmed under a header that is not in the chain of the
+//!   last `best_block_updated` (so after a reorg the client announces a best block of the new chain first).
+//! * the eleven `ConnectStyle`s go through the repo's own `connect_block` / `disconnect_blocks` helpers,
+//!   switchable per step.
+//! A client may also simply lag (not be told for a while) and may never be told about a losing fork at all.
+
+use crate::ops::*;
+use crate::sim::*;
+use bitcoin::hashes::{ripemd160, sha256, Hash};
+use bitcoin::{Block, BlockHash, OutPoint, Transaction, Txid};
+use lightning::chain::channelmonitor::{Balance, ANTI_REORG_DELAY};
+use lightning::chain::{BlockLocator, Confirm, Listen};
+use lightning::events::bump_transaction::BumpTransactionEvent;
+use lightning::events::{ClosureReason, Event, HTLCHandlingFailureType};
+use lightning::ln::channel_state::OutboundHTLCStateDetails;
+use lightning::ln::functional_test_utils::{connect_block, disconnect_blocks};
+use lightning::ln::types::ChannelId;
+use serde::{Deserialize, Serialize};
+use std::collections::{BTreeMap, BTreeSet, HashMap, HashSet};
+use vcore::{pick, Failure};
+
+/// `channelmonitor::LATENCY_GRACE_PERIOD_BLOCKS` (crate-private there): a closed channel's monitor fails an
+/// HTLC back once the *inbound* HTLC expires within this many blocks, whatever happened on chain.
+const LATENCY_GRACE_PERIOD_BLOCKS: u32 = 3;
+
+// -------------------------------------------------------------------------------------------------
+// the generated case
+// -------------------------------------------------------------------------------------------------
+
+#[derive(Clone, Debug, Serialize, Deserialize)]
+pub enum Closure {
+	None,
+	/// one of O's channels is force closed by O or by its peer; `tell_peer`: the error message reaches the
+	/// other side (otherwise the link is cut first and the other side learns about it from the chain)
+	Force { chan: u16, by_observed: bool, tell_peer: bool },
+}
+
+/// which candidate transactions go into a mined block
+#[derive(Clone, Debug, Serialize, Deserialize)]
+pub enum Sel {
+	None,
+	/// maximal conflict-free valid set, conflicts decided in txid order
+	All,
+	/// same, conflicts decided in reverse order
+	Rev,
+	One(u16),
+	Two(u16, u16),
+}
+
+/// what the competing branch contains for a transaction of the replaced blocks
+#[derive(Clone, Debug, Serialize, Deserialize)]
+pub enum Fate {
+	Same,
+	/// same transaction one block later (relative to the fork point)
+	Later,
+	/// a transaction spending one of the same outputs instead, if one is known and valid
+	Conflict,
+	Drop,
+}
+
+#[derive(Clone, Debug, Serialize, Deserialize)]
+pub enum Step {
+	Mine { sel: Sel, empty: u8 },
+	/// empty blocks up to (expiry of the which-th pending HTLC) + delta
+	ToExpiry { which: u16, delta: i8 },
+	/// replace the last `depth` blocks (1..=ANTI_REORG_DELAY) by depth+extra new ones
+	Fork { depth: u8, fates: Vec<Fate>, extra: u8 },
+	/// the recipient of a still unclaimed payment claims it
+	Claim { pay: u16 },
+}
+
+#[derive(Clone, Debug, Serialize, Deserialize)]
+pub struct Scenario {
+	pub spec: WorldSpec,
+	pub prefix: Vec<Op>,
+	pub observed: u16,
+	pub closure: Closure,
+	pub script: Vec<Step>,
+}
+
+#[derive(Clone, Debug, Serialize, Deserialize)]
+pub enum Conn {
+	/// `connect_block` of functional_test_utils in this style
+	Helper(u8),
+	Confirm { best_first: bool, dup: bool, skip_best: bool, filtered: bool, split: bool, mgr_first: bool },
+	Listen { filtered: bool, mgr_first: bool },
+}
+
+#[derive(Clone, Debug, Serialize, Deserialize)]
+pub enum Disc {
+	/// `disconnect_blocks` of functional_test_utils in this style
+	Helper(u8),
+	/// `transaction_unconfirmed` for every relevant txid whose block left the chain
+	Unconfirm { then_best: bool, mgr_first: bool },
+	/// `blocks_disconnected` with the fork point, in `chunks` calls walking backwards
+	ForkPoint { chunks: u8, full_locator: bool, mgr_first: bool },
+}
+
+#[derive(Clone, Debug, Serialize, Deserialize)]
+pub struct PStep {
+	pub lag: bool,
+	pub conn: Conn,
+	pub disc: Disc,
+}
+
+#[derive(Clone, Debug, Serialize, Deserialize)]
+pub struct Plan {
+	/// O is only ever told blocks that are part of the final chain (never sees a losing fork)
+	pub final_only: bool,
+	/// cycled over the trace events
+	pub steps: Vec<PStep>,
+}
+
+pub fn plain_plan() -> Plan {
+	Plan { final_only: false, steps: vec![PStep { lag: false, conn: Conn::Listen { filtered: false, mgr_first: false }, disc: Disc::ForkPoint { chunks: 1, full_locator: false, mgr_first: false } }] }
+}
+
+// -------------------------------------------------------------------------------------------------
+// trace
+// -------------------------------------------------------------------------------------------------
+
+#[derive(Clone, Debug)]
+pub enum TEv {
+	Connect(Block),
+	Disconnect(u32),
+	Claim(usize),
+}
+
+#[derive(Clone, Debug, Default)]
+pub struct Trace {
+	pub evs: Vec<TEv>,
+	pub checkpoint: Vec<bool>,
+	pub final_hashes: HashSet<BlockHash>,
+	/// index of the first Disconnect that removed a channel-relevant transaction
+	pub first_relevant_reorg: Option<usize>,
+	pub relevant_removed: usize,
+	pub reorgs: usize,
+	pub max_depth: u32,
+	pub blocks: usize,
+	pub txs_mined: usize,
+	pub conflicts_mined: usize,
+	pub dropped: usize,
+}
+
+impl Trace {
+	/// fill `checkpoint` and `final_hashes`
+	fn finish(&mut self) {
+		let mut chain: Vec<BlockHash> = vec![];
+		for e in self.evs.iter() {
+			match e {
+				TEv::Connect(b) => chain.push(b.block_hash()),
+				TEv::Disconnect(d) => {
+					let l = chain.len() - *d as usize;
+					chain.truncate(l);
+				},
+				TEv::Claim(_) => {},
+			}
+		}
+		self.final_hashes = chain.into_iter().collect();
+		// inside long runs of empty blocks only the first and the last few are compared
+		let n = self.evs.len();
+		self.checkpoint = vec![true; n];
+		let empty = |e: &TEv| matches!(e, TEv::Connect(b) if b.txdata.is_empty());
+		for i in 0..n {
+			if empty(&self.evs[i]) && i > 0 && empty(&self.evs[i - 1]) {
+				let run_ahead = (i + 1..n.min(i + 9)).take_while(|j| empty(&self.evs[*j])).count();
+				if run_ahead >= 8 {
+					self.checkpoint[i] = false;
+				}
+			}
+		}
+		if n > 0 {
+			self.checkpoint[n - 1] = true;
+		}
+	}
+}
+
+// -------------------------------------------------------------------------------------------------
+// conclusions compared between replicas
+// -------------------------------------------------------------------------------------------------
+
+#[derive(Clone, Debug, Default)]
+pub struct Snap {
+	pub tip: String,
+	pub best: Vec<String>,
+	pub channels: Vec<String>,
+	pub closed: Vec<String>,
+	pub htlc: Vec<String>,
+	pub balances: Vec<String>,
+	pub rel_mgr: Vec<String>,
+	pub rel_mon: Vec<String>,
+	pub spendable: Vec<String>,
+	pub pursued: Vec<String>,
+	pub peers: Vec<String>,
+	/// payment hashes whose preimage this replica was shown in some delivered transaction, and channels for
+	/// which it was shown a funding spend: knowledge that does not come from the current best chain alone
+	pub know: Vec<String>,
+	/// a channel transaction with >= ANTI_REORG_DELAY confirmations was later reorganised out in this replica
+	pub burial_reorg: bool,
+}
+
+/// Compare the conclusions of two replicas at a common tip. Returns the name of the first differing view.
+pub fn compare(a: &Snap, b: &Snap) -> Result<&'static str, (String, String)> {
+	macro_rules! cmp {
+		($f:ident, $name:expr) => {
+			if a.$f != b.$f {
+				return Err(($name.to_string(), format!("{}: {:?}\n   vs {:?}", $name, a.$f, b.$f)));
+			}
+		};
+	}
+	if a.tip != b.tip {
+		return Err(("harness-tip".into(), format!("tips differ {} {}", a.tip, b.tip)));
+	}
+	if a.peers != b.peers {
+		// the peers behaved differently (e.g. closed a channel because O lagged): inputs beyond the chain differ
+		return Ok("peer-divergence");
+	}
+	cmp!(best, "best-block");
+	if a.burial_reorg || b.burial_reorg {
+		return Ok("reduced:reorg-at-burial-depth");
+	}
+	cmp!(rel_mon, "relevant-txids-monitor");
+	if a.know != b.know {
+		return Ok("reduced:extra-knowledge-from-losing-fork");
+	}
+	cmp!(rel_mgr, "relevant-txids-manager");
+	cmp!(channels, "channels");
+	cmp!(closed, "closed");
+	cmp!(htlc, "htlc-resolutions");
+	cmp!(balances, "balances");
+	cmp!(spendable, "spendable-outputs");
+	cmp!(pursued, "pursued-claims");
+	Ok("full")
+}
+
+// -------------------------------------------------------------------------------------------------
+// the chain O has been told, as an index
+// -------------------------------------------------------------------------------------------------
+
+struct Told {
+	tip: u32,
+	height_of: HashMap<Txid, u32>,
+	spender: HashMap<OutPoint, Txid>,
+	tx: HashMap<Txid, Transaction>,
+}
+
+impl Told {
+	fn new(blocks: &[(Block, u32)]) -> Told {
+		let mut t = Told { tip: blocks.last().map(|b| b.1).unwrap_or(0), height_of: HashMap::new(), spender: HashMap::new(), tx: HashMap::new() };
+		for (b, h) in blocks.iter() {
+			for tx in b.txdata.iter() {
+				let id = tx.compute_txid();
+				t.height_of.insert(id, *h);
+				for i in tx.input.iter() {
+					t.spender.insert(i.previous_output, id);
+				}
+				t.tx.insert(id, tx.clone());
+			}
+		}
+		t
+	}
+	fn confs(&self, id: &Txid) -> u32 {
+		self.height_of.get(id).map(|h| self.tip - h + 1).unwrap_or(0)
+	}
+}
+
+fn hash160_of_payment_hash(h: &[u8; 32]) -> [u8; 20] {
+	ripemd160::Hash::hash(h).to_byte_array()
+}
+
+fn contains(hay: &[u8], needle: &[u8]) -> bool {
+	hay.windows(needle.len()).any(|w| w == needle)
+}
+
+/// does `tx` spend `op` with a witness script that commits to payment hash `h` (BOLT-3 HTLC scripts contain
+/// RIPEMD160(payment_hash))
+fn spends_htlc_of(tx: &Transaction, op_txid: &Txid, h: &[u8; 32]) -> Option<u32> {
+	let needle = hash160_of_payment_hash(h);
+	for i in tx.input.iter() {
+		if i.previous_output.txid == *op_txid {
+			if let Some(ws) = i.witness.last() {
+				if contains(ws, &needle) {
+					return Some(i.previous_output.vout);
+				}
+			}
+		}
+	}
+	None
+}
+
+// -------------------------------------------------------------------------------------------------
+// observer: everything O concluded, stamped against the chain it had been told at that moment
+// -------------------------------------------------------------------------------------------------
+
+#[derive(Default)]
+pub struct ObsStats {
+	pub failbacks_checked: u64,
+	pub failbacks_near_expiry: u64,
+	pub failbacks_by_peer: u64,
+	pub spendable_checked: u64,
+	pub balance_forgets_checked: u64,
+	pub balance_samples: u64,
+}
+
+pub struct Observer {
+	o: usize,
+	cur: usize,
+	funding: BTreeMap<ChannelId, OutPoint>,
+	funding_rev: HashMap<OutPoint, ChannelId>,
+	inbound_adds: HashMap<(ChannelId, u64), ([u8; 32], u32)>,
+	outbound_adds: HashMap<(ChannelId, u64), [u8; 32]>,
+	out_chan_of: HashMap<[u8; 32], ChannelId>,
+	inbound_expiry: HashMap<[u8; 32], u32>,
+	failed_by_peer: HashSet<[u8; 32]>,
+	/// outbound HTLCs fully committed when the script starts
+	pub tracked: HashSet<[u8; 32]>,
+	pub res: Vec<String>,
+	pub closed: Vec<String>,
+	pub spendable: Vec<String>,
+	pub peers_closed: Vec<String>,
+	bump_outpoints: Vec<OutPoint>,
+	prev_bal: BTreeMap<ChannelId, (Option<Txid>, Vec<Balance>)>,
+	pub disconnected_since_sample: bool,
+	pub stats: ObsStats,
+	pub labels: BTreeSet<String>,
+}
+
+fn reason_class(r: &ClosureReason) -> &'static str {
+	match r {
+		ClosureReason::CounterpartyForceClosed { .. } => "counterparty-force-closed",
+		ClosureReason::HolderForceClosed { .. } => "holder-force-closed",
+		ClosureReason::CommitmentTxConfirmed => "commitment-tx-confirmed",
+		ClosureReason::HTLCsTimedOut { .. } => "htlcs-timed-out",
+		ClosureReason::ProcessingError { .. } => "processing-error",
+		ClosureReason::DisconnectedPeer => "disconnected-peer",
+		ClosureReason::OutdatedChannelManager => "outdated-manager",
+		ClosureReason::FundingTimedOut => "funding-timed-out",
+		_ => "other",
+	}
+}
+
+impl Observer {
+	fn new(sim: &Sim, o: usize) -> Observer {
+		let mut funding = BTreeMap::new();
+		let mut funding_rev = HashMap::new();
+		for c in sim.chans.iter() {
+			if c.a == o || c.b == o {
+				let op = OutPoint { txid: c.funding_tx.compute_txid(), vout: 0 };
+				funding.insert(c.id, op);
+				funding_rev.insert(op, c.id);
+			}
+		}
+		Observer {
+			o,
+			cur: 0,
+			funding,
+			funding_rev,
+			inbound_adds: HashMap::new(),
+			outbound_adds: HashMap::new(),
+			out_chan_of: HashMap::new(),
+			inbound_expiry: HashMap::new(),
+			failed_by_peer: HashSet::new(),
+			tracked: HashSet::new(),
+			res: vec![],
+			closed: vec![],
+			spendable: vec![],
+			peers_closed: vec![],
+			bump_outpoints: vec![],
+			prev_bal: BTreeMap::new(),
+			disconnected_since_sample: false,
+			stats: ObsStats::default(),
+			labels: BTreeSet::new(),
+		}
+	}
+
+	/// (b1) an HTLC O offered is failed backwards (or reported failed to the payer) only when the transaction
+	/// that settles it on chain is buried.
+	fn check_failback(&mut self, sim: &Sim, h: &[u8; 32], what: &str) -> Result<(), Failure> {
+		if !self.tracked.contains(h) {
+			return Ok(());
+		}
+		if self.failed_by_peer.contains(h) {
+			self.stats.failbacks_by_peer += 1;
+			return Ok(());
+		}
+		let Some(chan) = self.out_chan_of.get(h).cloned() else { return Ok(()) };
+		let blocks = sim.w.nodes[self.o].blocks.lock().unwrap().clone();
+		let told = Told::new(&blocks);
+		if let Some(exp) = self.inbound_expiry.get(h) {
+			if told.tip + LATENCY_GRACE_PERIOD_BLOCKS >= *exp {
+				// documented behaviour of a closed channel's monitor: give up on the forward HTLC shortly before the
+				// inbound one expires
+				self.stats.failbacks_near_expiry += 1;
+				self.labels.insert("failback-near-inbound-expiry".into());
+				return Ok(());
+			}
+		}
+		self.stats.failbacks_checked += 1;
+		let hx = vcore::hex(&h[..4]);
+		let f = self.funding[&chan];
+		let Some(c) = told.spender.get(&f).cloned() else {
+			return Err(Failure::new("irreversible-before-burial", format!("{} for HTLC {} although no transaction spending the channel's funding output is in the chain O was told (tip {})", what, hx, told.tip)).with_key("irreversible-before-burial/failback-no-commitment"));
+		};
+		if told.confs(&c) < ANTI_REORG_DELAY {
+			return Err(Failure::new("irreversible-before-burial", format!("{} for HTLC {} while the commitment transaction {} has only {} confirmations on the chain O was told (tip {})", what, hx, c, told.confs(&c), told.tip)).with_key("irreversible-before-burial/failback-commitment"));
+		}
+		// is there an output for this HTLC in the confirmed commitment? known from any transaction seen anywhere
+		// that spends an output of it with the HTLC's script
+		let mut vout: Option<u32> = None;
+		for tx in sim.broadcasts.iter().flatten().chain(told.tx.values()) {
+			if let Some(v) = spends_htlc_of(tx, &c, h) {
+				vout = Some(v);
+				break;
+			}
+		}
+		if let Some(v) = vout {
+			match told.spender.get(&OutPoint { txid: c, vout: v }) {
+				None => {
+					return Err(Failure::new("irreversible-before-burial", format!("{} for HTLC {} while its output {}:{} is unspent on the chain O was told (tip {})", what, hx, c, v, told.tip)).with_key("irreversible-before-burial/failback-unspent"));
+				},
+				Some(s) => {
+					if told.confs(s) < ANTI_REORG_DELAY {
+						return Err(Failure::new("irreversible-before-burial", format!("{} for HTLC {} while the transaction {} spending its output has only {} confirmations on the chain O was told (tip {})", what, hx, s, told.confs(s), told.tip)).with_key("irreversible-before-burial/failback-htlc-spend"));
+					}
+				},
+			}
+			self.labels.insert("failback-after-buried-htlc-spend".into());
+		} else {
+			self.labels.insert("failback-after-buried-commitment".into());
+		}
+		Ok(())
+	}
+
+	/// Read everything recorded since the last call. Must be called right after O's events were processed.
+	fn scan(&mut self, sim: &Sim) -> Result<(), Failure> {
+		let o = self.o;
+		while self.cur < sim.log.len() {
+			let ev = sim.log[self.cur].1.clone();
+			self.cur += 1;
+			match ev {
+				SEvent::Deliver { to, wire: Wire::Add(m), .. } if to == o => {
+					self.inbound_adds.insert((m.channel_id, m.htlc_id), (m.payment_hash.0, m.cltv_expiry));
+					self.inbound_expiry.insert(m.payment_hash.0, m.cltv_expiry);
+				},
+				SEvent::Emit { from, wire: Wire::Add(m), .. } if from == o => {
+					self.outbound_adds.insert((m.channel_id, m.htlc_id), m.payment_hash.0);
+					self.out_chan_of.insert(m.payment_hash.0, m.channel_id);
+				},
+				SEvent::Deliver { to, wire: Wire::Fail(m), .. } if to == o => {
+					if let Some(h) = self.outbound_adds.get(&(m.channel_id, m.htlc_id)) {
+						self.failed_by_peer.insert(*h);
+					}
+				},
+				SEvent::Deliver { to, wire: Wire::FailMalformed(m), .. } if to == o => {
+					if let Some(h) = self.outbound_adds.get(&(m.channel_id, m.htlc_id)) {
+						self.failed_by_peer.insert(*h);
+					}
+				},
+				SEvent::Emit { from, wire: Wire::Fail(m), .. } if from == o => {
+					if let Some((h, _)) = self.inbound_adds.get(&(m.channel_id, m.htlc_id)).cloned() {
+						self.res.push(format!("fail-upstream {}", vcore::hex(&h)));
+						self.check_failback(sim, &h, "update_fail_htlc sent upstream")?;
+					}
+				},
+				SEvent::Emit { from, wire: Wire::Fulfill(m), .. } if from == o => {
+					if let Some((h, _)) = self.inbound_adds.get(&(m.channel_id, m.htlc_id)).cloned() {
+						self.res.push(format!("fulfill-upstream {}", vcore::hex(&h)));
+					}
+				},
+				SEvent::Ldk { node, ev } if node == o => match ev {
+					Event::PaymentSent { payment_hash, .. } => self.res.push(format!("sent {}", vcore::hex(&payment_hash.0))),
+					Event::PaymentFailed { payment_hash: Some(h), .. } => {
+						self.res.push(format!("failed {}", vcore::hex(&h.0)));
+						self.check_failback(sim, &h.0, "PaymentFailed")?;
+					},
+					Event::PaymentClaimed { payment_hash, .. } => self.res.push(format!("claimed {}", vcore::hex(&payment_hash.0))),
+					Event::PaymentForwarded { .. } => self.res.push("forwarded".into()),
+					Event::HTLCHandlingFailed { failure_type, .. } => {
+						let k = match failure_type {
+							HTLCHandlingFailureType::Forward { .. } => "forward",
+							HTLCHandlingFailureType::Receive { .. } => "receive",
+							_ => "other",
+						};
+						self.res.push(format!("handling-failed {}", k));
+					},
+					Event::ChannelClosed { channel_id, reason, .. } => self.closed.push(format!("{} {}", vcore::hex(&channel_id.0[..4]), reason_class(&reason))),
+					Event::SpendableOutputs { outputs, .. } => {
+						// (b2) spendable outputs are announced only once the creating transaction is buried
+						let blocks = sim.w.nodes[o].blocks.lock().unwrap().clone();
+						let told = Told::new(&blocks);
+						for d in outputs.iter() {
+							let op = d.spendable_outpoint();
+							self.stats.spendable_checked += 1;
+							self.spendable.push(format!("{}:{}", op.txid, op.index));
+							let c = told.confs(&op.txid);
+							if c < ANTI_REORG_DELAY {
+								return Err(Failure::new("irreversible-before-burial", format!("SpendableOutputs for {}:{} while its transaction has {} confirmations on the chain O was told (tip {})", op.txid, op.index, c, told.tip)).with_key("irreversible-before-burial/spendable"));
+							}
+						}
+					},
+					Event::BumpTransaction(BumpTransactionEvent::HTLCResolution { htlc_descriptors, .. }) => {
+						for d in htlc_descriptors.iter() {
+							self.bump_outpoints.push(d.outpoint());
+						}
+					},
+					Event::BumpTransaction(BumpTransactionEvent::ChannelClose { commitment_tx, .. }) => {
+						if let Some(i) = commitment_tx.input.first() {
+							self.bump_outpoints.push(i.previous_output);
+						}
+					},
+					_ => {},
+				},
+				SEvent::Ldk { node, ev: Event::ChannelClosed { channel_id, .. } } if node != o => {
+					self.peers_closed.push(format!("n{} {}", node, vcore::hex(&channel_id.0[..4])));
+				},
+				_ => {},
+			}
+		}
+		self.sample_balances(sim)
+	}
+
+	/// (b3) a per-HTLC balance of a channel closed on chain is dropped ("forgotten") only when the transaction
+	/// that spent the HTLC output is buried. Compared between two consecutive samples that saw the same confirmed
+	/// commitment transaction with nothing disconnected in between; a change of representation (the HTLC shows up
+	/// as an amount awaiting confirmations) is not a disappearance.
+	fn sample_balances(&mut self, sim: &Sim) -> Result<(), Failure> {
+		let o = self.o;
+		let cm = &sim.w.nodes[o].chain_monitor.chain_monitor;
+		let mut now: BTreeMap<ChannelId, Vec<Balance>> = BTreeMap::new();
+		for id in cm.list_monitors() {
+			if let Ok(m) = cm.get_monitor(id) {
+				now.insert(id, m.get_claimable_balances());
+			}
+		}
+		self.stats.balance_samples += 1;
+		let hashed = |b: &Balance| -> Option<([u8; 32], u64)> {
+			match b {
+				Balance::ContentiousClaimable { payment_hash, amount_satoshis, .. } => Some((payment_hash.0, *amount_satoshis)),
+				Balance::MaybeTimeoutClaimableHTLC { payment_hash, amount_satoshis, .. } => Some((payment_hash.0, *amount_satoshis)),
+				Balance::MaybePreimageClaimableHTLC { payment_hash, amount_satoshis, .. } => Some((payment_hash.0, *amount_satoshis)),
+				_ => None,
+			}
+		};
+		let awaiting = |v: &Vec<Balance>, amt: u64| v.iter().filter(|b| matches!(b, Balance::ClaimableAwaitingConfirmations { amount_satoshis, .. } if *amount_satoshis == amt)).count();
+		let mut told: Option<Told> = None;
+		let mut new_prev = BTreeMap::new();
+		for (id, bals) in now.iter() {
+			let closed_on_chain = !bals.iter().any(|b| matches!(b, Balance::ClaimableOnChannelClose { .. }));
+			let mut commitment = None;
+			if closed_on_chain {
+				if told.is_none() {
+					let blocks = sim.w.nodes[o].blocks.lock().unwrap().clone();
+					told = Some(Told::new(&blocks));
+				}
+				if let Some(f) = self.funding.get(id) {
+					commitment = told.as_ref().unwrap().spender.get(f).cloned();
+				}
+			}
+			if let (Some(c), Some((Some(pc), pb))) = (commitment, self.prev_bal.get(id)) {
+				if *pc == c && !self.disconnected_since_sample {
+					let t = told.as_ref().unwrap();
+					for (h, amt) in pb.iter().filter_map(hashed) {
+						if bals.iter().filter_map(hashed).any(|(h2, _)| h2 == h) {
+							continue;
+						}
+						if awaiting(bals, amt) > awaiting(pb, amt) {
+							continue;
+						}
+						self.stats.balance_forgets_checked += 1;
+						// the HTLC is gone from the balances: its output's spender must be buried
+						let mut ok = false;
+						let mut seen = String::new();
+						for (op, s) in t.spender.iter().filter(|(op, _)| op.txid == c) {
+							if spends_htlc_of(&t.tx[s], &c, &h) == Some(op.vout) {
+								seen = format!("{} with {} confirmations", s, t.confs(s));
+								if t.confs(s) >= ANTI_REORG_DELAY {
+									ok = true;
+								}
+							}
+						}
+						if !ok {
+							return Err(Failure::new("irreversible-before-burial", format!("the balance entry of HTLC {} ({} sat) on commitment {} was dropped; spender of its output on the chain O was told (tip {}): {}", vcore::hex(&h[..4]), amt, c, t.tip, if seen.is_empty() { "none".to_string() } else { seen })).with_key("irreversible-before-burial/balance-forgotten"));
+						}
+					}
+				}
+			}
+			new_prev.insert(*id, (commitment, bals.clone()));
+		}
+		self.prev_bal = new_prev;
+		self.disconnected_since_sample = false;
+		Ok(())
+	}
+}
+
+// -------------------------------------------------------------------------------------------------
+// one replica
+// -------------------------------------------------------------------------------------------------
+
+#[derive(Default)]
+pub struct RunOut {
+	pub fingerprint: String,
+	pub snaps: BTreeMap<usize, Snap>,
+	pub labels: BTreeSet<String>,
+	pub modes: BTreeSet<String>,
+	pub calls: Vec<String>,
+	pub stats: ObsStats,
+	pub pending_at_script_start: usize,
+	pub tracked: usize,
+	pub closure: &'static str,
+	pub final_snap: Option<Snap>,
+}
+
+pub struct Runner {
+	pub sim: Sim,
+	pub spec: WorldSpec,
+	pub o: usize,
+	base_len: usize,
+	gchain: Vec<Block>,
+	ldk_best: BlockHash,
+	obs: Observer,
+	debug: bool,
+	out: RunOut,
+	/// O's told chain as (hash, height, relevant txids)
+	mirror: Vec<(BlockHash, u32, Vec<Txid>)>,
+	relevant: HashSet<Txid>,
+	know: BTreeSet<String>,
+	was_buried: HashSet<Txid>,
+	all_hashes: HashSet<[u8; 32]>,
+	expiries: Vec<u32>,
+	salt: u32,
+	/// channels O knew to be closed before the chain script started
+	closed_offchain: HashSet<ChannelId>,
+}
+
+fn quiet_pump_rounds() -> usize {
+	40
+}
+
+impl Runner {
+	/// Build the world, run the traffic prefix and the closure. Identical in every replica.
+	pub fn setup(sc: &Scenario, debug: bool) -> Runner {
+		let mut spec = sc.spec.clone();
+		spec.deferred = false;
+		let mut sim = spec.build(false);
+		let n = sim.w.n;
+		let o = pick(sc.observed, n);
+		for op in sc.prefix.iter() {
+			apply(&mut sim, &spec, op);
+		}
+		apply(&mut sim, &spec, &Op::Pump);
+		apply(&mut sim, &spec, &Op::Pump);
+		let mut obs = Observer::new(&sim, o);
+		let mut expiries = vec![];
+		let mut tracked_desc = vec![];
+		for (ci, c) in sim.chans.iter().enumerate() {
+			if c.a != o && c.b != o {
+				continue;
+			}
+			if let Some(d) = sim.chan_details(o, ci) {
+				for h in d.pending_outbound_htlcs.iter() {
+					expiries.push(h.cltv_expiry);
+					if h.state == Some(OutboundHTLCStateDetails::Committed) {
+						obs.tracked.insert(h.payment_hash.0);
+						tracked_desc.push(format!("out {} {} {} {}", ci, vcore::hex(&h.payment_hash.0[..6]), h.amount_msat, h.cltv_expiry));
+					}
+				}
+				for h in d.pending_inbound_htlcs.iter() {
+					expiries.push(h.cltv_expiry);
+					tracked_desc.push(format!("in {} {} {} {}", ci, vcore::hex(&h.payment_hash.0[..6]), h.amount_msat, h.cltv_expiry));
+				}
+			}
+		}
+		expiries.sort();
+		expiries.dedup();
+		tracked_desc.sort();
+		let all_hashes: HashSet<[u8; 32]> = sim.pays.iter().map(|p| p.hash.0).collect();
+		let base_len = sim.w.nodes[o].blocks.lock().unwrap().len();
+		let ldk_best = sim.w.nodes[o].best_block_hash();
+		let mut r = Runner {
+			sim,
+			spec,
+			o,
+			base_len,
+			gchain: vec![],
+			ldk_best,
+			obs,
+			debug,
+			out: RunOut::default(),
+			mirror: vec![],
+			relevant: HashSet::new(),
+			know: BTreeSet::new(),
+			was_buried: HashSet::new(),
+			all_hashes,
+			expiries,
+			salt: 1000,
+			closed_offchain: HashSet::new(),
+		};
+		r.out.tracked = r.obs.tracked.len();
+		r.out.pending_at_script_start = r.sim.pays.iter().filter(|p| p.state == PayState::Claimable).count();
+		// closure
+		r.out.closure = "none";
+		if let Closure::Force { chan, by_observed, tell_peer } = &sc.closure {
+			let mine: Vec<usize> = (0..r.sim.chans.len()).filter(|c| r.sim.chans[*c].a == o || r.sim.chans[*c].b == o).collect();
+			let ci = mine[pick(*chan, mine.len())];
+			let peer = r.sim.peer_of(ci, o);
+			let (closer, other) = if *by_observed { (o, peer) } else { (peer, o) };
+			if r.sim.chan_details(closer, ci).is_some() {
+				if !*tell_peer {
+					r.sim.disconnect(closer, other);
+				}
+				let id = r.sim.chans[ci].id;
+				let other_id = r.sim.w.node_id(other);
+				let res = r.sim.w.nodes[closer].node.force_close_broadcasting_latest_txn(&id, &other_id, "harness force close".to_string());
+				r.sim.rec(SEvent::Api { node: closer, what: format!("force_close chan {}", ci), ok: res.is_ok(), detail: format!("{:?}", res) });
+				r.sim.drain(closer);
+				r.out.closure = match (*by_observed, *tell_peer) {
+					(true, true) => "by-observed-told",
+					(true, false) => "by-observed-silent",
+					(false, true) => "by-peer-told",
+					(false, false) => "by-peer-silent",
+				};
+			}
+		}
+		let _ = r.quiesce();
+		for id in r.obs.funding.keys() {
+			if !r.sim.w.nodes[o].node.list_channels().iter().any(|c| c.channel_id == *id) {
+				r.closed_offchain.insert(*id);
+			}
+		}
+		let mut txids: Vec<String> = r.sim.broadcasts.iter().flatten().map(|t| t.compute_txid().to_string()).collect();
+		txids.sort();
+		txids.dedup();
+		let fund: Vec<String> = r.sim.chans.iter().map(|c| c.funding_tx.compute_txid().to_string()).collect();
+		let pays: Vec<String> = r.sim.pays.iter().map(|p| format!("{:?}", p.state)).collect();
+		r.out.fingerprint = format!("{:?}|{:?}|{:?}|{:?}", fund, tracked_desc, txids, pays);
+		r
+	}
+
+	fn say(&mut self, s: String) {
+		if self.debug {
+			self.out.calls.push(s);
+		}
+	}
+
+	// ---- O's event pump ----------------------------------------------------------------------------
+
+	/// Process O's events and forwards right now and check what it concluded against the chain it was told.
+	fn pump_o(&mut self) -> Result<bool, Failure> {
+		let o = self.o;
+		let mut progress = false;
+		if !self.sim.process_events(o).is_empty() {
+			progress = true;
+		}
+		if self.sim.w.nodes[o].node.needs_pending_htlc_processing() {
+			self.sim.process_forwards(o);
+			progress = true;
+		}
+		self.sim.w.nodes[o].chain_monitor.added_monitors.lock().unwrap().clear();
+		self.obs.scan(&self.sim)?;
+		Ok(progress)
+	}
+
+	/// deliver / forward / process events until nothing moves (no reconnects, no chain activity)
+	fn quiesce(&mut self) -> Result<bool, Failure> {
+		let n = self.sim.w.n;
+		for _ in 0..quiet_pump_rounds() {
+			let mut progress = false;
+			self.sim.drain_all();
+			let live: Vec<(usize, usize)> = self.sim.links.iter().filter(|(k, q)| !q.is_empty() && self.sim.is_connected(k.0, k.1)).map(|(k, _)| *k).collect();
+			for (f, t) in live {
+				if self.sim.deliver(f, t, 1) > 0 {
+					progress = true;
+				}
+			}
+			for i in 0..n {
+				if i == self.o {
+					if self.pump_o()? {
+						progress = true;
+					}
+				} else {
+					if self.sim.w.nodes[i].node.needs_pending_htlc_processing() {
+						self.sim.process_forwards(i);
+						progress = true;
+					}
+					if !self.sim.process_events(i).is_empty() {
+						progress = true;
+					}
+				}
+			}
+			if !progress {
+				self.sim.trim();
+				return Ok(true);
+			}
+		}
+		self.sim.trim();
+		self.out.labels.insert("not-quiescent".into());
+		Ok(false)
+	}
+
+	// ---- O's chain client ---------------------------------------------------------------------------
+
+	fn o_tip(&self) -> (BlockHash, u32) {
+		self.sim.w.nodes[self.o].best_block_info()
+	}
+
+	fn o_chain_hashes(&self) -> Vec<BlockHash> {
+		self.sim.w.nodes[self.o].blocks.lock().unwrap()[self.base_len..].iter().map(|b| b.0.block_hash()).collect()
+	}
+
+	fn is_relevant(&self, tx: &Transaction) -> bool {
+		tx.input.iter().any(|i| self.obs.funding_rev.contains_key(&i.previous_output) || self.relevant.contains(&i.previous_output.txid))
+	}
+
+	/// bring the bookkeeping about the chain O was told in line with `node.blocks` (which the helpers mutate)
+	fn resync_told(&mut self) {
+		let hashes = self.o_chain_hashes();
+		let mut common = 0;
+		while common < hashes.len() && common < self.mirror.len() && self.mirror[common].0 == hashes[common] {
+			common += 1;
+		}
+		if self.mirror.len() > common {
+			self.mirror.truncate(common);
+			self.obs.disconnected_since_sample = true;
+		}
+		if hashes.len() > common {
+			let blocks: Vec<(Block, u32)> = self.sim.w.nodes[self.o].blocks.lock().unwrap()[self.base_len + common..].to_vec();
+			for (b, h) in blocks {
+				let mut rel = vec![];
+				for tx in b.txdata.iter() {
+					if self.is_relevant(tx) {
+						let id = tx.compute_txid();
+						self.relevant.insert(id);
+						rel.push(id);
+						for i in tx.input.iter() {
+							if let Some(c) = self.obs.funding_rev.get(&i.previous_output) {
+								if !self.closed_offchain.contains(c) {
+									self.know.insert(format!("funding-spend-shown {}", vcore::hex(&c.0[..4])));
+								}
+							}
+							for w in i.witness.iter() {
+								if w.len() == 32 {
+									let h = sha256::Hash::hash(w).to_byte_array();
+									if self.all_hashes.contains(&h) {
+										self.know.insert(format!("preimage-shown {}", vcore::hex(&h)));
+									}
+								}
+							}
+						}
+					}
+				}
+				self.mirror.push((b.block_hash(), h, rel));
+				// channel transactions that now have ANTI_REORG_DELAY confirmations on the chain O was told
+				if h + 1 >= ANTI_REORG_DELAY {
+					let deep = h + 1 - ANTI_REORG_DELAY;
+					for (_, bh, rel) in self.mirror.iter() {
+						if *bh == deep {
+							for t in rel.iter() {
+								self.was_buried.insert(*t);
+							}
+						}
+					}
+				}
+			}
+		}
+	}
+
+	/// Some channel transaction had reached the anti-reorg depth on a chain O was told and has fewer
+	/// confirmations (or none) now: whatever O concluded irreversibly from it was legitimate, so equivalence with
+	/// a replica that never saw it buried is not claimed while this lasts.
+	fn unburied_now(&self) -> bool {
+		let tip = self.mirror.last().map(|m| m.1).unwrap_or(0);
+		let mut confs: HashMap<Txid, u32> = HashMap::new();
+		for (_, h, rel) in self.mirror.iter() {
+			for t in rel.iter() {
+				confs.insert(*t, tip - h + 1);
+			}
+		}
+		self.was_buried.iter().any(|t| confs.get(t).cloned().unwrap_or(0) < ANTI_REORG_DELAY)
+	}
+
+	fn after_o_call(&mut self) -> Result<(), Failure> {
+		self.resync_told();
+		self.pump_o()?;
+		Ok(())
+	}
+
+	/// the client learns a block: `node.blocks` (which the test broadcaster uses for its locktime sanity check)
+	/// and the test wallet are updated exactly like `connect_block` does
+	fn o_push(&mut self, b: &Block) -> u32 {
+		let nd = &self.sim.w.nodes[self.o];
+		let h = {
+			let mut blocks = nd.blocks.lock().unwrap();
+			let h = blocks.last().unwrap().1 + 1;
+			blocks.push((b.clone(), h));
+			h
+		};
+		let wallet_script = lightning::util::wallet_utils::WalletSourceSync::get_change_script(&*nd.wallet_source).unwrap();
+		for tx in b.txdata.iter() {
+			for i in tx.input.iter() {
+				nd.wallet_source.remove_utxo(i.previous_output);
+			}
+			for (idx, out) in tx.output.iter().enumerate() {
+				if out.script_pubkey == wallet_script {
+					nd.wallet_source.add_utxo(tx.clone(), idx as u32);
+				}
+			}
+		}
+		h
+	}
+
+	/// indices of the block's transactions matching O's `Filter` registrations that were not handed over yet
+	fn matching(&self, b: &Block, given: &HashSet<usize>) -> Vec<usize> {
+		let cs = self.sim.w.nodes[self.o].chain_source;
+		let wt = cs.watched_txn.lock().unwrap();
+		let wo = cs.watched_outputs.lock().unwrap();
+		let mut out = vec![];
+		for (i, tx) in b.txdata.iter().enumerate() {
+			if given.contains(&i) {
+				continue;
+			}
+			let id = tx.compute_txid();
+			if wt.iter().any(|(t, _)| *t == id) || tx.input.iter().any(|inp| wo.iter().any(|(op, _)| op.into_bitcoin_outpoint() == inp.previous_output)) {
+				out.push(i);
+			}
+		}
+		out
+	}
+
+	fn with_confirm<F: Fn(&dyn Confirm)>(&self, mgr_first: bool, f: F) {
+		let nd = &self.sim.w.nodes[self.o];
+		let mon: &dyn Confirm = &nd.chain_monitor.chain_monitor;
+		let mgr: &dyn Confirm = nd.node;
+		if mgr_first {
+			f(mgr);
+			f(mon);
+		} else {
+			f(mon);
+			f(mgr);
+		}
+	}
+
+	fn with_listen<F: Fn(&dyn Listen)>(&self, mgr_first: bool, f: F) {
+		let nd = &self.sim.w.nodes[self.o];
+		let mon: &dyn Listen = &nd.chain_monitor.chain_monitor;
+		let mgr: &dyn Listen = nd.node;
+		if mgr_first {
+			f(mgr);
+			f(mon);
+		} else {
+			f(mon);
+			f(mgr);
+		}
+	}
+
+	fn aligned(&self) -> bool {
+		self.ldk_best == self.o_tip().0
+	}
+
+	/// tell both objects the client's tip as best block (Confirm)
+	fn align_o(&mut self) -> Result<(), Failure> {
+		if self.aligned() {
+			return Ok(());
+		}
+		let (tip_block, h) = self.sim.w.nodes[self.o].blocks.lock().unwrap().last().unwrap().clone();
+		self.say(format!("  align: best_block_updated({}, {})", short_hash(&tip_block.block_hash()), h));
+		self.with_confirm(false, |x| x.best_block_updated(&tip_block.header, h));
+		self.ldk_best = tip_block.block_hash();
+		self.after_o_call()
+	}
+
+	fn set_style(&mut self, s: u8) {
+		*self.sim.w.nodes[self.o].connect_style.borrow_mut() = connect_style_of(s);
+	}
+
+	fn o_connect(&mut self, blocks: Vec<Block>, conn: &Conn) -> Result<(), Failure> {
+		match conn {
+			Conn::Helper(s) => {
+				self.align_o()?;
+				self.set_style(*s);
+				self.out.modes.insert(format!("helper-connect:{:?}", connect_style_of(*s)));
+				for b in blocks.iter() {
+					self.say(format!("  connect_block[{:?}]({}) txs={}", connect_style_of(*s), short_hash(&b.block_hash()), b.txdata.len()));
+					connect_block(&self.sim.w.nodes[self.o], b);
+					self.ldk_best = b.block_hash();
+					self.after_o_call()?;
+				}
+			},
+			Conn::Listen { filtered, mgr_first } => {
+				self.align_o()?;
+				self.out.modes.insert(format!("listen{}{}", if *filtered { "-filtered" } else { "-full" }, if *mgr_first { "-mgr-first" } else { "" }));
+				for b in blocks.iter() {
+					let h = self.o_push(b);
+					if *filtered {
+						let mut given: HashSet<usize> = HashSet::new();
+						let mut first = true;
+						loop {
+							let m = self.matching(b, &given);
+							if m.is_empty() && !first {
+								break;
+							}
+							self.say(format!("  filtered_block_connected({}, {}) txs {:?}{}", short_hash(&b.block_hash()), h, m, if first { "" } else { " (second call, new filter matches)" }));
+							let txdata: Vec<(usize, &Transaction)> = m.iter().map(|i| (*i, &b.txdata[*i])).collect();
+							self.with_listen(*mgr_first, |x| x.filtered_block_connected(&b.header, &txdata, h));
+							given.extend(m);
+							first = false;
+							self.ldk_best = b.block_hash();
+							self.resync_told();
+						}
+					} else {
+						self.say(format!("  block_connected({}, {}) txs={}", short_hash(&b.block_hash()), h, b.txdata.len()));
+						self.with_listen(*mgr_first, |x| x.block_connected(b, h));
+						self.ldk_best = b.block_hash();
+					}
+					self.after_o_call()?;
+				}
+			},
+			Conn::Confirm { best_first, dup, skip_best, filtered, split, mgr_first } => {
+				self.out.modes.insert(format!(
+					"confirm{}{}{}{}{}{}",
+					if *best_first { "-best-first" } else { "-txs-first" },
+					if *dup { "-dup" } else { "" },
+					if *skip_best { "-skip-best" } else { "" },
+					if *filtered { "-filtered" } else { "" },
+					if *split { "-split" } else { "" },
+					if *mgr_first { "-mgr-first" } else { "" }
+				));
+				// after a reorg announced only through transaction_unconfirmed the objects' best block is on the old
+				// branch: no transaction may be confirmed under a header outside the chain of the last
+				// best_block_updated, so a best block of the new chain comes first
+				let stale = !self.o_chain_hashes().contains(&self.ldk_best) && self.ldk_best != self.sim.w.nodes[self.o].blocks.lock().unwrap()[self.base_len - 1].0.block_hash();
+				let batch_tip_first = *best_first && *skip_best;
+				let mut heights = vec![];
+				if batch_tip_first || stale {
+					// the client learns all the blocks, announces the new tip, then confirms in chain order
+					for b in blocks.iter() {
+						heights.push(self.o_push(b));
+					}
+					let (tb, th) = (blocks.last().unwrap().clone(), *heights.last().unwrap());
+					self.say(format!("  best_block_updated({}, {}) [tip first]", short_hash(&tb.block_hash()), th));
+					self.with_confirm(*mgr_first, |x| x.best_block_updated(&tb.header, th));
+					self.ldk_best = tb.block_hash();
+					self.after_o_call()?;
+				}
+				for (bi, b) in blocks.iter().enumerate() {
+					let h = if batch_tip_first || stale { heights[bi] } else { self.o_push(b) };
+					let per_block_best = !(batch_tip_first || stale) && !*skip_best;
+					if per_block_best && *best_first {
+						self.say(format!("  best_block_updated({}, {})", short_hash(&b.block_hash()), h));
+						self.with_confirm(*mgr_first, |x| x.best_block_updated(&b.header, h));
+						self.ldk_best = b.block_hash();
+						self.after_o_call()?;
+					}
+					let mut given: HashSet<usize> = HashSet::new();
+					let mut first = true;
+					loop {
+						let m: Vec<usize> = if *filtered { self.matching(b, &given) } else if first { (0..b.txdata.len()).collect() } else { vec![] };
+						if m.is_empty() {
+							break;
+						}
+						let parts: Vec<Vec<usize>> = if *split && m.len() > 1 { vec![m[..m.len() / 2].to_vec(), m[m.len() / 2..].to_vec()] } else { vec![m.clone()] };
+						for p in parts {
+							let txdata: Vec<(usize, &Transaction)> = p.iter().map(|i| (*i, &b.txdata[*i])).collect();
+							for rep in 0..(if *dup { 2 } else { 1 }) {
+								self.say(format!("  transactions_confirmed({}, {}) txs {:?}{}", short_hash(&b.block_hash()), h, p, if rep > 0 { " (repeated)" } else { "" }));
+								self.with_confirm(*mgr_first, |x| x.transactions_confirmed(&b.header, &txdata, h));
+							}
+						}
+						given.extend(m);
+						first = false;
+						self.resync_told();
+					}
+					self.after_o_call()?;
+					if per_block_best && !*best_first {
+						self.say(format!("  best_block_updated({}, {})", short_hash(&b.block_hash()), h));
+						self.with_confirm(*mgr_first, |x| x.best_block_updated(&b.header, h));
+						self.ldk_best = b.block_hash();
+						self.after_o_call()?;
+					}
+				}
+			},
+		}
+		Ok(())
+	}
+
+	fn locator(&self, height: u32, full: bool) -> BlockLocator {
+		let blocks = self.sim.w.nodes[self.o].blocks.lock().unwrap();
+		let mut l = BlockLocator::new(blocks[height as usize].0.block_hash(), height);
+		if full {
+			for i in 0..l.previous_blocks.len() {
+				let hh = height as i64 - 1 - i as i64;
+				if hh >= 0 {
+					l.previous_blocks[i] = Some(blocks[hh as usize].0.block_hash());
+				}
+			}
+		}
+		l
+	}
+
+	fn o_disconnect(&mut self, d: u32, disc: &Disc) -> Result<(), Failure> {
+		self.obs.disconnected_since_sample = true;
+		match disc {
+			Disc::Helper(s) => {
+				self.align_o()?;
+				self.set_style(*s);
+				self.out.modes.insert(format!("helper-disconnect:{:?}", connect_style_of(*s)));
+				self.say(format!("  disconnect_blocks[{:?}]({})", connect_style_of(*s), d));
+				// what the helper leaves the objects with as best block depends on the style
+				let st = connect_style_of(*s);
+				disconnect_blocks(&self.sim.w.nodes[self.o], d);
+				use lightning::ln::functional_test_utils::ConnectStyle as CS;
+				if !matches!(st, CS::BestBlockFirstReorgsOnlyTip | CS::TransactionsFirstReorgsOnlyTip) {
+					self.ldk_best = self.o_tip().0;
+				}
+				self.after_o_call()?;
+			},
+			Disc::Unconfirm { then_best, mgr_first } => {
+				self.out.modes.insert(format!("unconfirm-per-tx{}", if *then_best { "-then-best" } else { "" }));
+				let dead: HashSet<BlockHash> = {
+					let blocks = self.sim.w.nodes[self.o].blocks.lock().unwrap();
+					blocks[blocks.len() - d as usize..].iter().map(|b| b.0.block_hash()).collect()
+				};
+				let log = std::cell::RefCell::new(vec![]);
+				self.with_confirm(*mgr_first, |x| {
+					let mut rel = x.get_relevant_txids();
+					rel.sort();
+					for (txid, _h, hash) in rel {
+						if hash.map(|hh| dead.contains(&hh)).unwrap_or(false) {
+							log.borrow_mut().push(format!("  transaction_unconfirmed({})", txid));
+							x.transaction_unconfirmed(&txid);
+						}
+					}
+				});
+				for l in log.into_inner() {
+					self.say(l);
+				}
+				{
+					let mut blocks = self.sim.w.nodes[self.o].blocks.lock().unwrap();
+					let l = blocks.len() - d as usize;
+					blocks.truncate(l);
+				}
+				self.after_o_call()?;
+				if *then_best {
+					self.align_o()?;
+				}
+			},
+			Disc::ForkPoint { chunks, full_locator, mgr_first } => {
+				self.align_o()?;
+				let chunks = (*chunks as u32).clamp(1, d);
+				self.out.modes.insert(format!("fork-point-{}{}", if chunks == 1 { "once" } else { "walking-back" }, if *full_locator { "-full-locator" } else { "" }));
+				let tip_h = self.o_tip().1;
+				let target = tip_h - d;
+				let mut cur = tip_h;
+				for k in 0..chunks {
+					let step = (d / chunks).max(1);
+					let next = if k == chunks - 1 { target } else { cur.saturating_sub(step).max(target) };
+					if next >= cur {
+						continue;
+					}
+					let loc = self.locator(next, *full_locator);
+					self.say(format!("  blocks_disconnected(fork point {} at {})", short_hash(&loc.block_hash), next));
+					self.with_listen(*mgr_first, |x| x.blocks_disconnected(loc));
+					{
+						let mut blocks = self.sim.w.nodes[self.o].blocks.lock().unwrap();
+						blocks.truncate(next as usize + 1);
+					}
+					self.ldk_best = loc.block_hash;
+					cur = next;
+					self.after_o_call()?;
+				}
+			},
+		}
+		Ok(())
+	}
+
+	/// Move O's client towards the global chain as the plan step says.
+	fn sync_o(&mut self, plan: &Plan, ps: &PStep, force: bool, trace: Option<&Trace>) -> Result<(), Failure> {
+		let have = self.o_chain_hashes();
+		let want: Vec<Block> = if plan.final_only {
+			let fin = &trace.expect("final-only plans need the finished trace").final_hashes;
+			self.gchain.iter().take_while(|b| fin.contains(&b.block_hash())).cloned().collect()
+		} else {
+			self.gchain.clone()
+		};
+		let mut common = 0;
+		while common < have.len() && common < want.len() && have[common] == want[common].block_hash() {
+			common += 1;
+		}
+		let stale = have.len() > common;
+		if ps.lag && !force && !stale && !plan.final_only {
+			// not told anything now; a client sitting on a replaced branch is not allowed to lag further, so that
+			// what it eventually sees is never a reorg deeper than the script's forks
+			self.out.modes.insert("lag".into());
+			return Ok(());
+		}
+		if stale {
+			let d = (have.len() - common) as u32;
+			self.say(format!(" O: reorg of depth {} ({:?})", d, ps.disc));
+			self.o_disconnect(d, &ps.disc)?;
+		}
+		if want.len() > common {
+			let todo: Vec<Block> = want[common..].to_vec();
+			self.say(format!(" O: {} block(s) to connect ({:?})", todo.len(), ps.conn));
+			self.o_connect(todo, &ps.conn)?;
+		}
+		if force {
+			self.align_o()?;
+		}
+		Ok(())
+	}
+
+	// ---- driving one trace event ---------------------------------------------------------------------
+
+	fn apply_event(&mut self, idx: usize, ev: &TEv, plan: &Plan, last: bool, trace: Option<&Trace>, checkpoint: bool) -> Result<(), Failure> {
+		let n = self.sim.w.n;
+		match ev {
+			TEv::Connect(b) => {
+				self.say(format!("#{} CONNECT {} height {} txs {:?}", idx, short_hash(&b.block_hash()), self.base_len + self.gchain.len(), b.txdata.iter().map(|t| t.compute_txid().to_string()[..8].to_string()).collect::<Vec<_>>()));
+				self.gchain.push(b.clone());
+				for i in 0..n {
+					if i != self.o {
+						self.sim.deliver_block(i, b);
+					}
+				}
+			},
+			TEv::Disconnect(d) => {
+				self.say(format!("#{} DISCONNECT {}", idx, d));
+				let l = self.gchain.len() - *d as usize;
+				self.gchain.truncate(l);
+				for i in 0..n {
+					if i != self.o {
+						disconnect_blocks(&self.sim.w.nodes[i], *d);
+						self.sim.drain(i);
+					}
+				}
+			},
+			TEv::Claim(p) => {
+				self.say(format!("#{} CLAIM pay#{}", idx, p));
+				if *p < self.sim.pays.len() && self.sim.pays[*p].state == PayState::Claimable {
+					self.sim.claim(*p);
+				} else {
+					self.out.labels.insert("replica-divergence:claim".into());
+				}
+			},
+		}
+		let ps = plan.steps[idx % plan.steps.len()].clone();
+		self.sync_o(plan, &ps, last, trace)?;
+		self.quiesce()?;
+		if checkpoint || last {
+			let synced = self.o_chain_hashes() == self.gchain.iter().map(|b| b.block_hash()).collect::<Vec<_>>() && self.aligned();
+			if synced {
+				let s = self.snapshot()?;
+				if last {
+					self.out.final_snap = Some(s.clone());
+				}
+				self.out.snaps.insert(idx, s);
+			}
+		}
+		Ok(())
+	}
+
+	/// the set of outputs O is currently trying to claim: ask the chain monitor to rebroadcast its pending claims
+	/// and read the inputs (or, for anchor channels, the bump events)
+	fn probe_pursued(&mut self) -> Result<Vec<String>, Failure> {
+		let o = self.o;
+		self.pump_o()?;
+		let before = self.sim.broadcasts[o].len();
+		self.obs.bump_outpoints.clear();
+		self.sim.w.nodes[o].chain_monitor.chain_monitor.rebroadcast_pending_claims();
+		self.sim.drain(o);
+		self.pump_o()?;
+		let mut set: BTreeSet<String> = BTreeSet::new();
+		for tx in self.sim.broadcasts[o][before..].iter() {
+			for i in tx.input.iter() {
+				if self.obs.funding_rev.contains_key(&i.previous_output) || self.relevant.contains(&i.previous_output.txid) {
+					set.insert(format!("{}:{}", i.previous_output.txid, i.previous_output.vout));
+				}
+			}
+		}
+		for op in self.obs.bump_outpoints.drain(..) {
+			set.insert(format!("{}:{}", op.txid, op.vout));
+		}
+		Ok(set.into_iter().collect())
+	}
+
+	fn snapshot(&mut self) -> Result<Snap, Failure> {
+		let o = self.o;
+		let pursued = self.probe_pursued()?;
+		let nd = &self.sim.w.nodes[o];
+		let cm = &nd.chain_monitor.chain_monitor;
+		let mut s = Snap::default();
+		let tip = self.o_tip();
+		s.tip = format!("{}@{}", short_hash(&tip.0), tip.1);
+		let mb = nd.node.current_best_block();
+		s.best.push(format!("manager {}@{}", short_hash(&mb.block_hash), mb.height));
+		let mut mons = cm.list_monitors();
+		mons.sort();
+		for id in mons.iter() {
+			if let Ok(m) = cm.get_monitor(*id) {
+				let b = m.current_best_block();
+				s.best.push(format!("monitor {} {}@{}", vcore::hex(&id.0[..4]), short_hash(&b.block_hash), b.height));
+				let mut bals: Vec<String> = m.get_claimable_balances().iter().map(|b| format!("{} {:?}", vcore::hex(&id.0[..4]), b)).collect();
+				bals.sort();
+				s.balances.extend(bals);
+			}
+		}
+		for c in nd.node.list_channels() {
+			s.channels.push(format!("{} ready={} confirmations={:?} required={:?}", vcore::hex(&c.channel_id.0[..4]), c.is_channel_ready, c.confirmations, c.confirmations_required));
+		}
+		s.channels.sort();
+		let fmt_rel = |v: Vec<(Txid, u32, Option<BlockHash>)>| -> Vec<String> {
+			let mut out: Vec<String> = v.into_iter().map(|(t, h, b)| format!("{} {} {}", t, h, b.map(|x| short_hash(&x)).unwrap_or_default())).collect();
+			out.sort();
+			out
+		};
+		s.rel_mgr = fmt_rel(Confirm::get_relevant_txids(nd.node));
+		s.rel_mon = fmt_rel(Confirm::get_relevant_txids(cm));
+		s.closed = self.obs.closed.clone();
+		s.closed.sort();
+		s.htlc = self.obs.res.clone();
+		s.htlc.sort();
+		s.spendable = self.obs.spendable.clone();
+		s.spendable.sort();
+		s.pursued = pursued;
+		let mut peers = self.obs.peers_closed.clone();
+		for i in 0..self.sim.w.n {
+			if i != o {
+				let mut ids: Vec<String> = self.sim.w.nodes[i].node.list_channels().iter().map(|c| vcore::hex(&c.channel_id.0[..4])).collect();
+				ids.sort();
+				peers.push(format!("n{} open {:?}", i, ids));
+			}
+		}
+		peers.sort();
+		s.peers = peers;
+		s.know = self.know.iter().cloned().collect();
+		s.burial_reorg = self.unburied_now();
+		if s.burial_reorg {
+			self.out.labels.insert("reorg-unburies-buried-tx".into());
+		}
+		Ok(s)
+	}
+
+	// ---- replica 0: executes the chain script and records the trace -----------------------------------
+
+	fn mine_salted(&mut self, txs: Vec<Transaction>) -> (Block, usize) {
+		let (mut block, rejected) = self.sim.chain.mine(txs);
+		// ChainSim's dummy headers do not depend on the block content: give competing blocks distinct hashes
+		block.header.nonce = self.salt;
+		if let Some(r) = block.compute_merkle_root() {
+			block.header.merkle_root = r;
+		}
+		*self.sim.chain.blocks.last_mut().unwrap() = block.clone();
+		let height = self.sim.chain.height();
+		self.sim.rec(SEvent::Mined { height, txids: block.txdata.iter().map(|t| t.compute_txid()).collect() });
+		(block, rejected.len())
+	}
+
+	/// maximal conflict-free set of known unconfirmed transactions valid in the next block
+	fn candidates(&self, rev: bool) -> Vec<Transaction> {
+		let ch = &self.sim.chain;
+		let mut pool: Vec<&Transaction> = ch.seen.values().filter(|t| !ch.confirmed.contains_key(&t.compute_txid()) && !t.input.is_empty()).collect();
+		if rev {
+			pool.reverse();
+		}
+		let h = ch.height() + 1;
+		let mut in_block: HashMap<OutPoint, bitcoin::TxOut> = HashMap::new();
+		let mut spent: HashSet<OutPoint> = HashSet::new();
+		let mut chosen: Vec<Transaction> = vec![];
+		let mut chosen_ids: HashSet<Txid> = HashSet::new();
+		loop {
+			let mut added = false;
+			for t in pool.iter() {
+				let id = t.compute_txid();
+				if chosen_ids.contains(&id) || t.input.iter().any(|i| spent.contains(&i.previous_output)) {
+					continue;
+				}
+				if ch.check_tx(t, h, &in_block, false).is_ok() {
+					for (v, o) in t.output.iter().enumerate() {
+						in_block.insert(OutPoint { txid: id, vout: v as u32 }, o.clone());
+					}
+					for i in t.input.iter() {
+						spent.insert(i.previous_output);
+					}
+					chosen_ids.insert(id);
+					chosen.push((*t).clone());
+					added = true;
+				}
+			}
+			if !added {
+				break;
+			}
+		}
+		chosen
+	}
+
+	fn builder_event(&mut self, trace: &mut Trace, ev: TEv, plan: &Plan) -> Result<(), Failure> {
+		let idx = trace.evs.len();
+		trace.evs.push(ev.clone());
+		// the builder takes a snapshot after every event; which ones are compared is decided once the trace is known
+		self.apply_event(idx, &ev, plan, false, None, true)
+	}
+
+	/// Execute the chain script as replica 0.
+	pub fn build(&mut self, sc: &Scenario) -> Result<Trace, Failure> {
+		let plan = plain_plan();
+		let mut trace = Trace::default();
+		self.sim.min_reorg_floor = self.sim.chain.height();
+		let floor = self.sim.chain.height();
+		for step in sc.script.iter() {
+			match step {
+				Step::Mine { sel, empty } => {
+					let txs = match sel {
+						Sel::None => vec![],
+						Sel::All => self.candidates(false),
+						Sel::Rev => self.candidates(true),
+						Sel::One(k) => {
+							let c = self.candidates(false);
+							if c.is_empty() {
+								vec![]
+							} else {
+								vec![c[pick(*k, c.len())].clone()]
+							}
+						},
+						Sel::Two(k, l) => {
+							let c = self.candidates(false);
+							if c.is_empty() {
+								vec![]
+							} else {
+								let (a, b) = (pick(*k, c.len()), pick(*l, c.len()));
+								if a == b {
+									vec![c[a].clone()]
+								} else {
+									vec![c[a.min(b)].clone(), c[a.max(b)].clone()]
+								}
+							}
+						},
+					};
+					let (b, _) = self.mine_salted(txs);
+					trace.txs_mined += b.txdata.len();
+					trace.blocks += 1;
+					self.builder_event(&mut trace, TEv::Connect(b), &plan)?;
+					for _ in 0..*empty {
+						let (b, _) = self.mine_salted(vec![]);
+						trace.blocks += 1;
+						self.builder_event(&mut trace, TEv::Connect(b), &plan)?;
+					}
+				},
+				Step::ToExpiry { which, delta } => {
+					let h = self.sim.chain.height();
+					let n = if self.expiries.is_empty() {
+						1
+					} else {
+						let e = self.expiries[pick(*which, self.expiries.len())] as i64 + *delta as i64;
+						(e - h as i64).clamp(1, 220) as u32
+					};
+					for _ in 0..n {
+						let (b, _) = self.mine_salted(vec![]);
+						trace.blocks += 1;
+						self.builder_event(&mut trace, TEv::Connect(b), &plan)?;
+					}
+				},
+				Step::Fork { depth, fates, extra } => {
+					let h = self.sim.chain.height();
+					let d = (*depth as u32).clamp(1, ANTI_REORG_DELAY).min(h - floor);
+					if d == 0 {
+						continue;
+					}
+					let mut removed: Vec<(usize, Transaction)> = vec![];
+					for (pos, b) in self.sim.chain.blocks[(h - d + 1) as usize..].iter().enumerate() {
+						for tx in b.txdata.iter() {
+							removed.push((pos, tx.clone()));
+						}
+					}
+					for _ in 0..d {
+						self.sim.chain.disconnect_tip();
+					}
+					let to_height = self.sim.chain.height();
+					self.sim.rec(SEvent::Reorged { to_height });
+					let rel_removed = removed.iter().filter(|(_, t)| self.relevant.contains(&t.compute_txid())).count();
+					if rel_removed > 0 && trace.first_relevant_reorg.is_none() {
+						trace.first_relevant_reorg = Some(trace.evs.len());
+					}
+					trace.relevant_removed += rel_removed;
+					trace.reorgs += 1;
+					trace.max_depth = trace.max_depth.max(d);
+					self.salt += 1;
+					self.builder_event(&mut trace, TEv::Disconnect(d), &plan)?;
+					let len = (d + (*extra as u32).clamp(1, 3)) as usize;
+					let mut contents: Vec<Vec<Transaction>> = vec![vec![]; len];
+					for (i, (pos, tx)) in removed.iter().enumerate() {
+						let fate = if fates.is_empty() { Fate::Same } else { fates[i % fates.len()].clone() };
+						match fate {
+							Fate::Same => contents[*pos].push(tx.clone()),
+							Fate::Later => contents[(*pos + 1).min(len - 1)].push(tx.clone()),
+							Fate::Drop => trace.dropped += 1,
+							Fate::Conflict => {
+								let id = tx.compute_txid();
+								let ch = &self.sim.chain;
+								let alt = ch.seen.values().find(|t| t.compute_txid() != id && !ch.confirmed.contains_key(&t.compute_txid()) && t.input.iter().any(|i| tx.input.iter().any(|j| j.previous_output == i.previous_output)) && !removed.iter().any(|(_, r)| r.compute_txid() == t.compute_txid()));
+								match alt {
+									Some(a) => {
+										contents[*pos].push(a.clone());
+										trace.conflicts_mined += 1;
+									},
+									None => trace.dropped += 1,
+								}
+							},
+						}
+					}
+					for txs in contents {
+						let (b, _) = self.mine_salted(txs);
+						trace.txs_mined += b.txdata.len();
+						trace.blocks += 1;
+						self.builder_event(&mut trace, TEv::Connect(b), &plan)?;
+					}
+				},
+				Step::Claim { pay } => {
+					let cands: Vec<usize> = self.sim.pays.iter().filter(|p| p.state == PayState::Claimable).map(|p| p.idx).collect();
+					if cands.is_empty() {
+						continue;
+					}
+					let p = cands[pick(*pay, cands.len())];
+					self.builder_event(&mut trace, TEv::Claim(p), &plan)?;
+				},
+			}
+		}
+		trace.finish();
+		// the final snapshot is the last one taken
+		if let Some((_, s)) = self.out.snaps.iter().next_back() {
+			self.out.final_snap = Some(s.clone());
+		}
+		Ok(trace)
+	}
+
+	/// Replay the trace as another replica.
+	pub fn follow(&mut self, trace: &Trace, plan: &Plan) -> Result<(), Failure> {
+		if plan.final_only {
+			self.out.modes.insert("final-chain-only".into());
+		}
+		let n = trace.evs.len();
+		for (i, ev) in trace.evs.iter().enumerate() {
+			self.apply_event(i, ev, plan, i + 1 == n, Some(trace), trace.checkpoint[i])?;
+		}
+		Ok(())
+	}
+
+	pub fn fingerprint(&self) -> &str {
+		&self.out.fingerprint
+	}
+
+	pub fn calls(&self) -> &Vec<String> {
+		&self.out.calls
+	}
+
+	pub fn finish_out(mut self) -> RunOut {
+		self.out.labels.extend(std::mem::take(&mut self.obs.labels));
+		self.out.stats = std::mem::take(&mut self.obs.stats);
+		std::mem::take(&mut self.out)
+	}
+
+	pub fn history(&self) -> String {
+		crate::oracle_commit::dump_history(&self.sim)
+	}
+}
+
+pub fn short_hash(h: &BlockHash) -> String {
+	h.to_string()[..10].to_string()
+}
